@@ -459,8 +459,12 @@ public:
   StringRef lookupNamedBuildParameter(Command* decl, const Token& startTok,
                                       StringRef name,
                                       SmallVectorImpl<char>& storage) {
+    // Ninja shell-escapes $in and $out in every binding it expands for an edge
+    // (description and rspfile_content included); only the depfile and the
+    // response file name are used as plain paths.
     LookupContext context{*this, decl, startTok,
-                          /*shellEscapeInAndOut*/ name == "command"};
+                          /*shellEscapeInAndOut*/
+                          name != "depfile" && name != "rspfile"};
     llvm::raw_svector_ostream os(storage);
     lookupBuildParameter(&context, name, os);
     return os.str();
